@@ -108,7 +108,23 @@ Reweight(w, i) ==
   /\ last' = [a |-> "Reweight", w |-> w, i |-> i]
   /\ UNCHANGED <<glob, dict>>
 
+\* persistence: a copy through the json format carries the data and nothing of the analysis; a pickled / deep copy carries both
+Reload(i) ==
+  /\ Len(objs) < MaxObj
+  /\ objs' = Append(objs, objs[i])
+  /\ cache' = Append(cache, NoneC)
+  /\ last' = [a |-> "Reload", i |-> i]
+  /\ UNCHANGED <<glob, dict>>
+Clone(i) ==
+  /\ Len(objs) < MaxObj
+  /\ objs' = Append(objs, objs[i])
+  /\ cache' = Append(cache, cache[i])
+  /\ last' = [a |-> "Clone", i |-> i]
+  /\ UNCHANGED <<glob, dict>>
+
 Next == \/ \E e \in EnsSet : NewPrimary(e)
+        \/ \E i \in DOMAIN objs : Reload(i)
+        \/ \E i \in DOMAIN objs : Clone(i)
         \/ \E p \in Params, v \in PVals : SetGlobal(p, v)
         \/ \E p \in Params, e \in EnsSet, v \in PVals : SetDict(p, e, v)
         \/ \E p \in Params, e \in EnsSet : DelDict(p, e)
@@ -142,5 +158,14 @@ Precedence == [][last'.a = "Gm" => LET i == last'.i  arg == last'.arg IN
 \* new data depend on operand data only: deriving from an analysed and from a never-analysed copy gives the same term
 DeriveIgnoresCache == [][last'.a = "Derive" => objs'[Len(objs')].data = Der(objs[last'.i].data, objs[last'.j].data)]_vars
 
+\* a copy has the data of its source; its analysis is the source's for a clone and absent after a reload, whatever the parameter slots say now
+CopiesCarryData == [][last'.a \in {"Reload", "Clone"} =>
+                        /\ objs'[Len(objs')] = objs[last'.i]
+                        /\ cache'[Len(cache')] = IF last'.a = "Clone" THEN cache[last'.i] ELSE NoneC]_vars
+
 Bounded == TLCGet("level") <= MaxDepth
+\* simulation only (Sim_Session.cfg): a change of a parameter slot is followed by an analysis, so that generated behaviours
+\* spend their steps on what the machine is about instead of on runs of slot changes
+ParamActs == {"SetGlobal", "SetDict", "DelDict"}
+SimBias == last.a \in ParamActs => last'.a = "Gm"
 =============================================================================
